@@ -365,6 +365,8 @@ func snapTrace(args []string) int {
 			poly = genCollapse(rng, *w, rng.Intn(6))
 		case "rect":
 			poly = genRect(rng, *w)
+		case "spiral":
+			poly = genSpiral(rng, *w)
 		case "arbitrary":
 			poly = genArbitrary(rng, *w, *nmax)
 		default:
